@@ -1,5 +1,6 @@
 """C12: -r N R is exactly the unrolled command list."""
 import json
+import re
 
 from .. import cli_lang as L
 from ..common import (C, cli_map, coq, log, run_cli, run_coq_eval, txt, untxt)
@@ -164,7 +165,7 @@ def run(chk, binary):
         def vic(items):
             out = []
             for it in items:
-                s = it[2] if it[0] != "next" else None
+                s = re.sub(r'(?<!\\)"', r'\\"', it[2]) if it[0] != "next" else None      # a bare quote inside a vic literal is written \"
                 if it[0] == "cut":
                     out.append('cut "%s"' % s)
                 elif it[0] == "move":
